@@ -125,6 +125,12 @@ Job gen_query(Src &s, Ctx &c, bool *nontriv) {
         q += en; q.push_back(eq); q += ev;
         free(en); free(ev);
     }
+    // now and then the whole query has exactly (or one off) a length that an internal buffer plausibly has
+    if (np >= 1 && s.chance(1, 8)) {
+        static const size_t edge[] = {256, 512, 1024, 4096, 8192, 8192, 16384};
+        size_t target = edge[s.range(0, 6)] + (size_t)s.range(0, 2) - 1;
+        if (target > q.size()) { std::string fill(target - q.size(), 'a'); for (size_t i = 0; i < fill.size(); i += 11) fill[i] = "abz019_-."[i % 9]; pairs[np - 1].second += fill; q += fill; }
+    }
     size_t nprior = tblmode == 1 ? (size_t)s.range(1, 4) : 0;
     c.op("qparse_queries(%zu pairs, sep=%s, %zu bytes) into %s", np, sep ? strf("'%c'", sep).c_str() : "NUL", q.size(), tblmode == 0 ? "a new table" : tblmode == 1 ? strf("a table that already holds %zu entries", nprior).c_str() : "a UNIQUE table");
     *nontriv = np >= 2;
